@@ -83,9 +83,12 @@ def check(prop, tier, repo, seed):
     checker_cmds = []
 
     # ---------------- Verus units
-    for (unit, prefixes) in cfg.get("verus", []):
-        spec = os.path.join(VERIF, "spec", unit + ".vspec")
-        res = VR.run_unit(spec, repo)
+    import concurrent.futures as cf
+    with cf.ThreadPoolExecutor(max_workers=4) as pool:
+        futs = [(unit, prefixes, pool.submit(VR.run_unit, os.path.join(VERIF, "spec", unit + ".vspec"), repo))
+                for (unit, prefixes) in cfg.get("verus", [])]
+        unit_results = [(unit, prefixes, f.result()) for (unit, prefixes, f) in futs]
+    for (unit, prefixes, res) in unit_results:
         units.append(res)
         checker_cmds.append(res.cmd)
         smt_ms += res.smt_ms
